@@ -27,7 +27,7 @@ def evaluate(sid, src, checks, seeds=(0,)):
         det = {}
         for c in checks:
             for s in seeds:
-                env = dict(os.environ, PYHAM_REPO=W, VERIF_SEED=str(s))
+                env = dict(os.environ, PYHAM_REPO=W, VERIF_SEED=str(s), VERIF_EVIDENCE_DIR=os.path.join(V, '.work', 'seed-evidence'))
                 rc, out = sh('./check %s --no-build' % c, cwd=V, env=env)
                 line = [l for l in out.split('\n') if l.startswith('VIOLATION')]
                 det['%s@seed%d' % (c, s)] = dict(exit=rc, violation=line[0] if line else None)
